@@ -1089,6 +1089,20 @@ static void sc_deleted(struct json_object *o, void *ud)
 	(void)o;
 	sc_destroyed[(int)(intptr_t)ud]++;
 }
+static int ud_deleted_calls;
+static void ud_deleted(struct json_object *o, void *ud)
+{
+	(void)o;
+	(void)ud;
+	ud_deleted_calls++;
+}
+static int ud_serializer(struct json_object *o, struct printbuf *pb, int level, int flags)
+{
+	(void)o;
+	(void)level;
+	(void)flags;
+	return printbuf_memappend(pb, "0", 1);
+}
 static void fam_scale(void)
 {
 	in_scale = 1;
@@ -1202,6 +1216,116 @@ static void fam_scale(void)
 			mc_nontrivial(mc_hash_str(scaledesc));
 			mc_sample_current();
 		}
+	/* ---- user data and value setters: a node's destruction callback runs at its last release and
+	 * at no other call - in particular not when its VALUE is changed.  (Documented exceptions:
+	 * set_userdata / set_serializer replace the user data and run the old callback;
+	 * json_object_set_double drops only the retained text installed by new_double_s.) ---- */
+	static const char *const installers[] = {"set_userdata", "set_serializer(custom function)", "set_serializer(json_object_userdata_to_json_string)"};
+	static const char *const kinds[] = {"int", "uint64", "double", "double_s", "boolean", "string", "array", "object"};
+	for (int kind = 0; kind < 8; kind++)
+		for (int inst = 0; inst < 3; inst++)
+			for (int held = 0; held < 2; held++)
+			{
+				if (kind == 3 && inst == 0)
+					continue; /* documented: a new_double_s node uses its userdata field itself, it cannot hold other data */
+				snprintf(scaledesc, sizeof scaledesc, "scale userdata kind=%s installer=%s in-container=%d", kinds[kind], installers[inst], held);
+				if (!mc_case_begin())
+					continue;
+				memset(sc_destroyed, 0, sizeof sc_destroyed);
+				struct json_object *x = kind == 0 ? json_object_new_int(5) : kind == 1 ? json_object_new_uint64(UINT64_MAX) : kind == 2 ? json_object_new_double(1.5)
+				                        : kind == 3 ? json_object_new_double_s(1.5, "1.50") : kind == 4 ? json_object_new_boolean(1) : kind == 5 ? json_object_new_string("text")
+				                        : kind == 6 ? json_object_new_array() : json_object_new_object();
+				/* the user data is a real C string (the third installer prints it), its address is the token */
+				static char tokstr[] = "\"user-text\"";
+				void *ud = tokstr;
+				if (inst == 0)
+					json_object_set_userdata(x, ud, ud_deleted);
+				else if (inst == 1)
+					json_object_set_serializer(x, ud_serializer, ud, ud_deleted);
+				else
+					json_object_set_serializer(x, json_object_userdata_to_json_string, ud, ud_deleted);
+				struct json_object *parent = NULL;
+				if (held)
+				{
+					parent = json_object_new_array();
+					json_object_array_add(parent, json_object_get(x)); /* the container and the caller each hold one reference */
+				}
+				ud_deleted_calls = 0;
+				const char *step = "";
+#define UD_STEP(name, call)                                                                                                                             \
+	do                                                                                                                                                      \
+	{                                                                                                                                                       \
+		step = name;                                                                                                                                        \
+		call;                                                                                                                                               \
+		if (ud_deleted_calls || json_object_get_userdata(x) != ud)                                                                                          \
+		{                                                                                                                                                   \
+			mc_violation("callback-at-value-change", "%s on a %s node with user data installed by %s: destruction callback ran %d time(s), user data %s", step, \
+			             kinds[kind], installers[inst], ud_deleted_calls, json_object_get_userdata(x) == ud ? "kept" : "lost");                                 \
+			goto ud_done;                                                                                                                                   \
+		}                                                                                                                                                   \
+	} while (0)
+				switch (kind)
+				{
+				case 0:
+				case 1:
+					UD_STEP("set_int", json_object_set_int(x, 7));
+					UD_STEP("set_int64", json_object_set_int64(x, -9));
+					UD_STEP("set_uint64", json_object_set_uint64(x, 3));
+					UD_STEP("int_inc", json_object_int_inc(x, 40));
+					break;
+				case 2:
+					UD_STEP("set_double", json_object_set_double(x, 2.5));
+					UD_STEP("set_double again", json_object_set_double(x, -0.0));
+					break;
+				case 3:
+					/* new_double_s installed its own (private) serializer and text; the installer above
+					 * replaced them - from here on the node behaves like any double with user data */
+					UD_STEP("set_double", json_object_set_double(x, 2.5));
+					break;
+				case 4: UD_STEP("set_boolean", json_object_set_boolean(x, 0)); break;
+				case 5:
+					UD_STEP("set_string (longer)", json_object_set_string(x, "a considerably longer text than before, beyond inline storage"));
+					UD_STEP("set_string_len (shorter)", json_object_set_string_len(x, "ab", 2));
+					UD_STEP("set_string (empty)", json_object_set_string(x, ""));
+					break;
+				case 6:
+					UD_STEP("array_add", json_object_array_add(x, json_object_new_int(1)));
+					UD_STEP("array_put_idx", json_object_array_put_idx(x, 3, json_object_new_int(2)));
+					UD_STEP("array_del_idx", json_object_array_del_idx(x, 0, 2));
+					UD_STEP("array_shrink", json_object_array_shrink(x, 0));
+					break;
+				default:
+					UD_STEP("object_add", json_object_object_add(x, "k", json_object_new_int(1)));
+					UD_STEP("object_add (replace)", json_object_object_add(x, "k", json_object_new_int(2)));
+					UD_STEP("object_del", json_object_object_del(x, "k"));
+					break;
+				}
+				if (inst != 1)
+					UD_STEP("to_json_string", (void)json_object_to_json_string(x));
+				if (held)
+				{
+					UD_STEP("release of the container", json_object_put(parent));
+					parent = NULL;
+				}
+				if (json_object_put(x) != 1 || ud_deleted_calls != 1)
+					mc_violation("scale:last-release", "last release of the %s node: destruction callback ran %d time(s)", kinds[kind], ud_deleted_calls);
+				x = NULL;
+			ud_done:
+				if (x)
+				{
+					json_object_set_userdata(x, NULL, NULL);
+					json_object_put(x);
+				}
+				if (parent)
+					json_object_put(parent);
+				if (vf_live())
+				{
+					mc_violation("leak", "%ld blocks live", vf_live());
+					mc_restart_worker();
+				}
+				mc_nontrivial(mc_hash_str(scaledesc));
+				mc_sample_current();
+			}
 	in_scale = 0;
 }
 static void describe(sb_t *o)
